@@ -380,6 +380,10 @@ func (g *semGen) method(name string, visible []genDef, from string, aliases map[
 		m.InFields = g.fields(g.r.Intn(4), visible, from, aliases)
 	}
 	if sub != nil {
+		// one method in three that returns a subservice takes no arguments: `node() Node;`
+		if g.r.Intn(3) == 0 {
+			m.InType, m.InFields = nil, nil
+		}
 		b, _ := refTo(*sub, from, aliases)
 		m.OutType = &b
 		return m
